@@ -66,7 +66,11 @@ pub fn catch<T>(f: impl FnOnce() -> T) -> Result<T, Panicked> {
             let (loc, msg) = LAST_PANIC
                 .with(|p| p.borrow_mut().take())
                 .unwrap_or(("?".into(), "?".into()));
-            let loc = loc.trim_start_matches("/repo/").to_string();
+            // repo-relative location, wherever the checked tree lives
+            let loc = match loc.find("/src/") {
+                Some(i) if loc.starts_with('/') && !loc.contains("/.cargo/") && !loc.contains("/rustc/") => loc[i + 1..].to_string(),
+                _ => loc.trim_start_matches("/repo/").to_string(),
+            };
             Err(Panicked { loc, msg })
         }
     }
@@ -604,6 +608,10 @@ pub fn finish(meta: &Meta, tier: Tier, seed: u64, total: Summary, wall: f64, nwo
     }
     std::fs::create_dir_all(format!("{}/replays", verif_dir())).ok();
     for (i, v) in unknown.iter().enumerate() {
+        if i == 12 {
+            println!("  ... {} more violation keys (replay files are only written for the first 12)", unknown.len() - 12);
+            break;
+        }
         let path = format!("{}/replays/{}-{}-{}.json", verif_dir(), meta.id, tier.name(), i);
         let r = json!({"property": meta.id, "clause": v.clause, "disc": v.disc, "count": v.count,
             "detail": v.detail, "case": v.case});
